@@ -466,6 +466,25 @@ func runC08(r *vfw.Run) {
 	if len(wantRev) > 0 {
 		r.Probe("adoption_reverted_transactions")
 	}
+	// ... and handed back FOR RE-INCLUSION: in an order in which a pool can take them, i.e. every sender's transactions
+	// in the order of their nonces (oldest abandoned block first). (A first version of this oracle re-offered them to
+	// the node's pool and demanded that the block builder's candidate list contain every one that was still valid; it
+	// fired on the unchanged tree, because whether a pool offers a transaction at once also depends on what else it
+	// holds - more than the property states.)
+	if adopted {
+		last := map[common.Address][2]uint32{}
+		for _, tx := range reverted {
+			snd, _ := types.Sender(tx)
+			cur := [2]uint32{uint32(tx.Epoch), tx.AccountNonce}
+			if prev, ok := last[snd]; ok && (cur[0] < prev[0] || cur[0] == prev[0] && cur[1] < prev[1]) {
+				r.Violate("C08:reverted-transactions-handed-back-out-of-order", "sender %x: transaction with epoch/nonce %d/%d is handed back after %d/%d (%d transactions handed back): a pool fed in this order queues or refuses the later ones", snd[:4], cur[0], cur[1], prev[0], prev[1], len(reverted))
+			}
+			last[snd] = cur
+		}
+		if len(reverted) > 1 {
+			r.Probe("reverted_transactions_order_checked")
+		}
+	}
 	r.Case(r.W.Fingerprint(), true)
 	c08sample(r, s, own, theirs, tampered, adopted, nil)
 }
